@@ -697,6 +697,8 @@ def _all_failures(case):
                         use(y)
             for x in back1:
                 use(x)
+            from harness.core import scramble
+            scramble(back1)                      # ... and edits every flag / number / list in what it was given (the result is the caller's)
             ok2, back2 = call(VmStack.deserialize, c1.begin_parse())
             if not ok2:
                 fails.append(Fail(f'parsed-values-alias-the-cell/second-parse-raises/{exc_sig(back2)}', repr(back2)))
